@@ -9,6 +9,20 @@ class Path:
     def __init__(self, conds=(), stmts=(), end=None, endnode=None):
         self.conds, self.stmts, self.end, self.endnode = tuple(conds), tuple(stmts), end, endnode
 
+    def live(self, env):
+        """the statements of the path that do something: no assert expansions, no declarations of locals that are only names for their initialiser
+        (alias locals, see LocalEnv): hoisting a sub-expression into a const local does not change the path."""
+        out = []
+        for s in self.stmts:
+            if s.get('as'):
+                continue
+            if s.get('k') == 'DeclStmt' and env is not None:
+                ds = [d for d in (s.get('c') or ()) if d.get('k') == 'VarDecl']
+                if ds and all(env.is_alias(d) for d in ds):
+                    continue
+            out.append(s)
+        return out
+
     def ext(self, cond=None, stmt=None):
         return Path(self.conds + ((cond,) if cond is not None else ()), self.stmts + ((stmt,) if stmt is not None else ()))
 
